@@ -17,7 +17,7 @@ func TestMain(m *testing.M) {
 		Property: "C12",
 		Rule: "rapid-generated schemas (1-3 tables: single/composite/AUTO_INCREMENT keys, NOT NULL, VARCHAR/BLOB maxima, CHECKs, unique and plain indexes) " +
 			"and DDL/DML histories over small value pools (INSERT, UPSERT, ON CONFLICT DO NOTHING/UPDATE, UPDATE, DELETE then re-insert, CREATE [UNIQUE] INDEX / " +
-			"ADD / DROP / RENAME COLUMN on populated tables, reopen), run as autocommit statements, interactive transactions, BEGIN…COMMIT blocks or engine.NewTx, " +
+			"ADD / DROP / RENAME COLUMN and DROP CONSTRAINT (named and engine-named CHECKs; committed, rolled back or aborted) on populated tables, reopen), run as autocommit statements, interactive transactions, BEGIN…COMMIT blocks or engine.NewTx, " +
 			"and rounds of 2-4 concurrent sessions (scheduled interleavings and free-running goroutines). After every transaction the tables are scanned through the " +
 			"primary index: invariants of the property + equality with a reference interpreter (commit order for concurrent sessions). " +
 			"Non-trivial: a statement was rejected for a constraint and a later statement on the same table was accepted, or two concurrent sessions " +
